@@ -85,6 +85,11 @@ def compare(impl, model, hdl):
                 st["hdl_rejected"] += 1
                 fails.append(dict(base, kind="hdl-not-accepted", detail=(hline or "no H line")[:400], stim=[]))
                 continue
+            hi = next((x for x in b["lines"] if x.startswith("HI ")), None)
+            if hi is not None:
+                # the emitted design was read but cannot be initialised / reset (e.g. a case statement without items)
+                fails.append(dict(base, kind="hdl-not-accepted", detail=hi[:400], stim=[]))
+                continue
             if oline is not None:
                 if not oline.startswith("O ok"):
                     fails.append(dict(base, kind="destregs-differ", detail=oline[:400], stim=[]))
